@@ -525,6 +525,38 @@ func StoreMessagePerUserWithSharedDBAndS3(sharedDB *sql.DB, userDB *sql.DB, pars
 	return messageID, nil
 }
 
+// BlobReadError reports that the content of a part is kept in the object store and could not be read from there
+type BlobReadError struct {
+	BlobID int64
+	Err    error
+}
+
+func (e *BlobReadError) Error() string {
+	return fmt.Sprintf("blob %d cannot be read from the object store: %v", e.BlobID, e.Err)
+}
+
+func (e *BlobReadError) Unwrap() error { return e.Err }
+
+// LoadBlobContent returns the content of a blob from the shared database or, for a blob kept in the object
+// store, from there. Content that the object store does not hand out is an error, not an empty part.
+func LoadBlobContent(sharedDB *sql.DB, blobID int64, s3Storage *blobstorage.S3BlobStorage) (string, error) {
+	if content, err := db.GetBlob(sharedDB, blobID); err == nil && content != "" {
+		return content, nil
+	}
+	s3BlobID, storageType, err := db.GetBlobS3BlobID(sharedDB, blobID)
+	if err != nil || storageType != "s3" || s3BlobID == "" {
+		return "", nil
+	}
+	if s3Storage == nil || !s3Storage.IsEnabled() {
+		return "", &BlobReadError{BlobID: blobID, Err: fmt.Errorf("no object store is configured")}
+	}
+	content, err := s3Storage.Retrieve(s3BlobID)
+	if err != nil {
+		return "", &BlobReadError{BlobID: blobID, Err: err}
+	}
+	return content, nil
+}
+
 // ReconstructMessageWithSharedDBAndS3 reconstructs the raw message from database parts with S3 support and shared blob storage
 func ReconstructMessageWithSharedDBAndS3(sharedDB *sql.DB, userDB *sql.DB, messageID int64, s3Storage *blobstorage.S3BlobStorage) (string, error) {
 	// Get message parts from user database
@@ -650,17 +682,11 @@ func ReconstructMessageWithSharedDBAndS3(sharedDB *sql.DB, userDB *sql.DB, messa
 
 		// Get content from blob (in shared database) or text_content (with S3 support)
 		if blobID, ok := part["blob_id"].(int64); ok {
-			content, err := db.GetBlob(sharedDB, blobID)
-			if err == nil && content != "" {
-				buf.WriteString(content)
-			} else if s3Storage != nil && s3Storage.IsEnabled() {
-				// Try to get from S3 storage
-				if s3BlobID, storageType, err := db.GetBlobS3BlobID(sharedDB, blobID); err == nil && storageType == "s3" && s3BlobID != "" {
-					if content, err := s3Storage.Retrieve(s3BlobID); err == nil {
-						buf.WriteString(content)
-					}
-				}
+			content, err := LoadBlobContent(sharedDB, blobID, s3Storage)
+			if err != nil {
+				return "", err
 			}
+			buf.WriteString(content)
 		} else if textContent, ok := part["text_content"].(string); ok {
 			buf.WriteString(textContent)
 		}
@@ -717,7 +743,9 @@ func ReconstructMessageWithSharedDBAndS3(sharedDB *sql.DB, userDB *sql.DB, messa
 		// Use DFS to reconstruct the MIME structure
 		// If we have a single root part, handle it directly
 		if len(rootParts) == 1 {
-			reconstructPartDFS(&buf, sharedDB, rootParts[0], s3Storage, "")
+			if err := reconstructPartDFS(&buf, sharedDB, rootParts[0], s3Storage, ""); err != nil {
+				return "", err
+			}
 		} else if len(rootParts) > 1 {
 			// Multiple root parts - determine the best multipart type
 			// Check for common patterns:
@@ -742,7 +770,9 @@ func ReconstructMessageWithSharedDBAndS3(sharedDB *sql.DB, userDB *sql.DB, messa
 
 			for _, rootNode := range rootParts {
 				buf.WriteString(fmt.Sprintf("--%s\r\n", boundary))
-				reconstructPartDFS(&buf, sharedDB, rootNode, s3Storage, boundary)
+				if err := reconstructPartDFS(&buf, sharedDB, rootNode, s3Storage, boundary); err != nil {
+					return "", err
+				}
 			}
 
 			buf.WriteString(fmt.Sprintf("--%s--\r\n", boundary))
@@ -820,7 +850,7 @@ type PartNode struct {
 }
 
 // reconstructPartDFS recursively reconstructs a MIME part using depth-first search
-func reconstructPartDFS(buf *bytes.Buffer, sharedDB *sql.DB, node *PartNode, s3Storage *blobstorage.S3BlobStorage, parentBoundary string) {
+func reconstructPartDFS(buf *bytes.Buffer, sharedDB *sql.DB, node *PartNode, s3Storage *blobstorage.S3BlobStorage, parentBoundary string) error {
 	contentType := node.Part["content_type"].(string)
 	contentTypeLower := strings.ToLower(contentType)
 
@@ -855,7 +885,9 @@ func reconstructPartDFS(buf *bytes.Buffer, sharedDB *sql.DB, node *PartNode, s3S
 		rendered := make([][]byte, len(children))
 		for i, child := range children {
 			var childBuf bytes.Buffer
-			reconstructPartDFS(&childBuf, sharedDB, child, s3Storage, boundary)
+			if err := reconstructPartDFS(&childBuf, sharedDB, child, s3Storage, boundary); err != nil {
+				return err
+			}
 			rendered[i] = childBuf.Bytes()
 		}
 		for n := 0; boundaryOccursIn(rendered, boundary); n++ {
@@ -890,8 +922,9 @@ func reconstructPartDFS(buf *bytes.Buffer, sharedDB *sql.DB, node *PartNode, s3S
 			contentType, node.Part["blob_id"] != nil, len(getStringField(node.Part, "text_content")))
 
 		writePartHeaders(buf, node.Part)
-		writePartContentWithS3(buf, sharedDB, node.Part, s3Storage)
+		return writePartContentWithS3(buf, sharedDB, node.Part, s3Storage)
 	}
+	return nil
 }
 
 // boundaryOccursIn reports whether a line of one of the rendered parts would be read as a delimiter of
@@ -972,23 +1005,15 @@ func writePartHeaders(buf *bytes.Buffer, part map[string]interface{}) {
 }
 
 // writePartContentWithS3 writes the content of a message part with S3 support
-func writePartContentWithS3(buf *bytes.Buffer, sharedDB *sql.DB, part map[string]interface{}, s3Storage *blobstorage.S3BlobStorage) {
-	// Get content from blob (in shared database) or text_content
+func writePartContentWithS3(buf *bytes.Buffer, sharedDB *sql.DB, part map[string]interface{}, s3Storage *blobstorage.S3BlobStorage) error {
+	// Get content from blob (shared database or object store) or text_content
 	var content string
 	if blobID, ok := part["blob_id"].(int64); ok {
-		// First try to get from local storage (in shared database)
-		if c, err := db.GetBlob(sharedDB, blobID); err == nil && c != "" {
-			content = c
-		} else if s3Storage != nil && s3Storage.IsEnabled() {
-			// Try to get from S3 storage
-			if s3BlobID, storageType, err := db.GetBlobS3BlobID(sharedDB, blobID); err == nil && storageType == "s3" && s3BlobID != "" {
-				if c, err := s3Storage.Retrieve(s3BlobID); err == nil {
-					content = c
-				} else {
-					fmt.Printf("Failed to retrieve blob from S3: %v\n", err)
-				}
-			}
+		c, err := LoadBlobContent(sharedDB, blobID, s3Storage)
+		if err != nil {
+			return err
 		}
+		content = c
 	} else if textContent, ok := part["text_content"].(string); ok {
 		content = textContent
 	}
@@ -1029,6 +1054,7 @@ func writePartContentWithS3(buf *bytes.Buffer, sharedDB *sql.DB, part map[string
 	if !strings.HasSuffix(content, "\r\n") {
 		buf.WriteString("\r\n")
 	}
+	return nil
 }
 
 // extractRecipients extracts all recipient addresses from To, Cc, and Bcc headers
